@@ -1,34 +1,73 @@
 import ScriggoV.Lemmas.ComposeFuel
-/-! C16 helper lemmas, part 3: an import is the imported declarations written in place
-(observational simulation of environments), from which `extends` = layout + the child's macros. -/
+/-! C16 helper lemmas, part 3: an import is the imported file's items (its imports and its
+declarations) written in place — observational simulation of environments — from which
+`extends` = layout + the child's imports and macros. The imported file may import other files
+(transitively, diamonds included: the pass over a file is a function of the file set); its macros have
+package scope in the engine, so the expansion into a sequentially scoped file needs the imported file
+to be free of forward references (`NoFwd`). -/
 namespace ScriggoV.Compose
 
-section
-variable (E : Engine) (R : Nat → Except Err (Format × Bytes))
+def MacroVal.fmt : MacroVal → Format
+  | .mk f _ _ _ _ => f
 
-/-- `v'` does whatever `v` does: same result format, and whenever the body of `v` evaluates (with any
-fuel) the body of `v'` evaluates to the same bytes. -/
-def ValLe : MacroVal → MacroVal → Prop
-  | .mk f b env, .mk f' b' env' =>
-    f = f' ∧ ∀ k content, mapE (evalAtom E R k env) b = .ok content →
-      mapE (evalAtom E R k env') b' = .ok content
+def MacroVal.params : MacroVal → List Format
+  | .mk _ ps _ _ _ => ps
+
+section
+variable (E : Engine) (R : Nat → Except Err (Format × Bytes)) (S : Nat → Except Err Env)
+
+/-- the body of a macro, evaluated in the macro's scope with constant arguments -/
+def bodyEval (k : Nat) : MacroVal → List Bytes → Except Err Bytes
+  | .mk _ ps body cenv home, cargs =>
+    match scopeEnv S cenv home with
+    | .error e => .error e
+    | .ok senv => mapE (evalAtom E R S k senv (ps.zip cargs)) body
+
+theorem evalAtom_call_eq (n : Nat) (env : Env) (args : List (Format × Bytes)) (ctx : Ctx) (m : Nat)
+    (v : Bool) (cargs : List Bytes) :
+    evalAtom E R S (n+1) env args (.call ctx m v cargs) =
+      match lookup env m with
+      | none => .error (.undefined m)
+      | some mv =>
+        if cargs.length ≠ mv.params.length then .error .badArgs else
+        match bodyEval E R S n mv cargs with
+        | .error e => .error e
+        | .ok content => showSite E (E.macroGuard mv.fmt ctx) v mv.fmt ctx content := by
+  simp only [evalAtom]
+  cases lookup env m with
+  | none => rfl
+  | some mv =>
+    obtain ⟨f, ps, body, cenv, home⟩ := mv
+    show (if cargs.length ≠ ps.length then Except.error Err.badArgs else _) =
+      (if cargs.length ≠ ps.length then Except.error Err.badArgs else _)
+    by_cases hlen : cargs.length ≠ ps.length
+    · rw [if_pos hlen, if_pos hlen]
+    · rw [if_neg hlen, if_neg hlen]
+      simp only [bodyEval, MacroVal.fmt]
+      cases scopeEnv S cenv home with
+      | error e => rfl
+      | ok senv => rfl
+
+/-- `v'` does whatever `v` does: same result format and parameters, and whenever the body of `v`
+evaluates (with any fuel and arguments) the body of `v'` evaluates to the same bytes. -/
+def ValLe (v v' : MacroVal) : Prop :=
+  v.fmt = v'.fmt ∧ v.params = v'.params ∧
+  ∀ k cargs content, bodyEval E R S k v cargs = .ok content → bodyEval E R S k v' cargs = .ok content
 
 /-- every macro visible in `env` is visible in `env2` and does at least the same -/
 def EnvLe (env env2 : Env) : Prop :=
-  ∀ m v, lookup env m = some v → ∃ v', lookup env2 m = some v' ∧ ValLe E R v v'
+  ∀ m v, lookup env m = some v → ∃ v', lookup env2 m = some v' ∧ ValLe E R S v v'
 
-theorem ValLe.refl (v : MacroVal) : ValLe E R v v := by
-  obtain ⟨f, b, env⟩ := v
-  exact ⟨rfl, fun _ _ h => h⟩
+theorem ValLe.refl (v : MacroVal) : ValLe E R S v v := ⟨rfl, rfl, fun _ _ _ h => h⟩
 
-theorem EnvLe.refl (env : Env) : EnvLe E R env env :=
-  fun _ v h => ⟨v, h, ValLe.refl E R v⟩
+theorem EnvLe.refl (env : Env) : EnvLe E R S env env :=
+  fun _ v h => ⟨v, h, ValLe.refl E R S v⟩
 
-theorem EnvLe.nil (env2 : Env) : EnvLe E R [] env2 := by
+theorem EnvLe.nil (env2 : Env) : EnvLe E R S [] env2 := by
   intro m v h; simp [lookup] at h
 
-theorem EnvLe.cons {env env2 : Env} {v v' : MacroVal} (m : Nat) (hv : ValLe E R v v')
-    (h : EnvLe E R env env2) : EnvLe E R ((m, v) :: env) ((m, v') :: env2) := by
+theorem EnvLe.cons {env env2 : Env} {v v' : MacroVal} (m : Nat) (hv : ValLe E R S v v')
+    (h : EnvLe E R S env env2) : EnvLe E R S ((m, v) :: env) ((m, v') :: env2) := by
   intro k w hw
   simp only [lookup] at hw ⊢
   by_cases hk : m = k
@@ -49,70 +88,91 @@ theorem lookup_append (a b : Env) (m : Nat) :
     · simp [hk]
     · simp only [hk, if_false]; exact ih
 
-theorem EnvLe.append_left (ex : Env) {env env2 : Env} (h : EnvLe E R env env2) :
-    EnvLe E R (ex ++ env) (ex ++ env2) := by
+theorem EnvLe.append_left (ex : Env) {env env2 : Env} (h : EnvLe E R S env env2) :
+    EnvLe E R S (ex ++ env) (ex ++ env2) := by
   intro m v hv
   rw [lookup_append] at hv ⊢
   cases hl : lookup ex m with
-  | some w => rw [hl] at hv; simp only at hv ⊢; cases hv; exact ⟨_, rfl, ValLe.refl E R _⟩
+  | some w => rw [hl] at hv; simp only at hv ⊢; cases hv; exact ⟨_, rfl, ValLe.refl E R S _⟩
   | none => rw [hl] at hv; simp only at hv ⊢; exact h m v hv
 
-/-- Lemma A: an atom evaluates the same in a bigger environment -/
-theorem evalAtom_envLe {env env2 : Env} (h : EnvLe E R env env2) :
-    ∀ k a x, evalAtom E R k env a = .ok x → evalAtom E R k env2 a = .ok x := by
-  intro k a x hx
+/-- Lemma A: an atom evaluates the same when the macro it calls (if any) is at least as good -/
+theorem evalAtom_of_calleeLe {env env2 : Env} (k : Nat) (args : List (Format × Bytes)) (a : Atom)
+    (h : ∀ m, a.callee = some m → ∀ v, lookup env m = some v →
+      ∃ v', lookup env2 m = some v' ∧ ValLe E R S v v') :
+    ∀ x, evalAtom E R S k env args a = .ok x → evalAtom E R S k env2 args a = .ok x := by
+  intro x hx
   cases a with
   | text b => cases k <;> simpa [evalAtom] using hx
   | showConst ctx b => cases k <;> simpa [evalAtom] using hx
+  | showParam ctx i => cases k <;> simpa [evalAtom] using hx
   | render ctx p v => cases k <;> simpa [evalAtom] using hx
-  | call ctx m v =>
+  | call ctx m v cargs =>
     cases k with
     | zero => simp [evalAtom] at hx
     | succ n =>
-      simp only [evalAtom] at hx ⊢
+      rw [evalAtom_call_eq] at hx ⊢
       cases hl : lookup env m with
       | none => rw [hl] at hx; cases hx
       | some mv =>
         rw [hl] at hx
-        obtain ⟨mv', hl', hle⟩ := h m mv hl
+        obtain ⟨mv', hl', hf, hp, hb⟩ := h m rfl mv hl
         rw [hl']
-        obtain ⟨f, body, env'⟩ := mv
-        obtain ⟨f', body', env''⟩ := mv'
-        obtain ⟨hf, hb⟩ := hle
-        subst hf
         simp only at hx ⊢
-        cases hm : mapE (evalAtom E R n env') body with
-        | error e => rw [hm] at hx; cases hx
-        | ok content => rw [hm] at hx; rw [hb n content hm]; exact hx
+        rw [← hp, ← hf]
+        split at hx
+        · cases hx
+        · rename_i hlen
+          rw [if_neg hlen]
+          cases hm : bodyEval E R S n mv cargs with
+          | error e => rw [hm] at hx; cases hx
+          | ok content => rw [hm] at hx; rw [hb n cargs content hm]; exact hx
+
+theorem evalAtom_envLe {env env2 : Env} (h : EnvLe E R S env env2) (k : Nat)
+    (args : List (Format × Bytes)) (a : Atom) (x : Bytes)
+    (hx : evalAtom E R S k env args a = .ok x) : evalAtom E R S k env2 args a = .ok x :=
+  evalAtom_of_calleeLe E R S k args a (fun m _ v hv => h m v hv) x hx
 
 /-- Lemma B: the same declaration in a bigger environment is a bigger macro -/
-theorem ValLe.of_envLe {env env2 : Env} (h : EnvLe E R env env2) (f : Format) (body : List Atom) :
-    ValLe E R (.mk f body env) (.mk f body env2) :=
-  ⟨rfl, fun k content hc =>
-    mapE_mono body (fun a _ x hx => evalAtom_envLe E R h k a x hx) content hc⟩
+theorem ValLe.of_envLe {env env2 : Env} (h : EnvLe E R S env env2) (f : Format) (ps : List Format)
+    (body : List Atom) : ValLe E R S (.mk f ps body env none) (.mk f ps body env2 none) :=
+  ⟨rfl, rfl, fun k cargs content hc => by
+    simp only [bodyEval, scopeEnv] at hc ⊢
+    exact mapE_mono body (fun a _ x hx => evalAtom_envLe E R S h k _ a x hx) content hc⟩
+
+/-- Lemma B′: a macro with package scope against the same declaration with an environment in
+which everything its body calls is at least as good -/
+theorem ValLe.of_scope {q : Nat} {full envR : Env} (hS : S q = .ok full) (f : Format)
+    (ps : List Format) (body : List Atom)
+    (h : ∀ a ∈ body, ∀ m, a.callee = some m → ∀ v, lookup full m = some v →
+      ∃ v', lookup envR m = some v' ∧ ValLe E R S v v') :
+    ValLe E R S (.mk f ps body [] (some q)) (.mk f ps body envR none) :=
+  ⟨rfl, rfl, fun k cargs content hc => by
+    simp only [bodyEval, scopeEnv, hS] at hc ⊢
+    exact mapE_mono body (fun a ha x hx => evalAtom_of_calleeLe E R S k _ a (h a ha) x hx) content hc⟩
 
 /-- states of the pass over a run file: bigger environment, same output so far -/
-def StLe (s t : St) : Prop := EnvLe E R s.env t.env ∧ s.out = t.out
+def StLe (s t : St) : Prop := EnvLe E R S s.env t.env ∧ s.out = t.out
 
 /-- Lemma D: one item, related states -/
 theorem stepItem_stLe (X : Nat → Except Err Env) (n : Nat) (fmt : Format) {s t : St}
-    (hst : StLe E R s t) (it : Item) (s' : St) (h : stepItem E R X n fmt s it = .ok s') :
-    ∃ t', stepItem E R X n fmt t it = .ok t' ∧ StLe E R s' t' := by
+    (hst : StLe E R S s t) (it : Item) (s' : St) (h : stepItem E R S X n fmt s it = .ok s') :
+    ∃ t', stepItem E R S X n fmt t it = .ok t' ∧ StLe E R S s' t' := by
   obtain ⟨henv, hout⟩ := hst
   cases it with
   | atom a =>
     simp only [stepItem] at h ⊢
-    cases ha : evalAtom E R n s.env a with
+    cases ha : evalAtom E R S n s.env [] a with
     | error e => rw [ha] at h; cases h
     | ok x =>
       rw [ha] at h
-      rw [evalAtom_envLe E R henv n a x ha]
+      rw [evalAtom_envLe E R S henv n [] a x ha]
       cases h
       exact ⟨_, rfl, henv, by simp [hout]⟩
-  | macroDecl m fm body =>
+  | macroDecl m fm ps body =>
     simp only [stepItem] at h ⊢
     cases h
-    exact ⟨_, rfl, EnvLe.cons E R m (ValLe.of_envLe E R henv _ body) henv, hout⟩
+    exact ⟨_, rfl, EnvLe.cons E R S m (ValLe.of_envLe E R S henv _ ps body) henv, hout⟩
   | extends_ p => simp [stepItem] at h
   | import_ q =>
     simp only [stepItem] at h ⊢
@@ -121,138 +181,248 @@ theorem stepItem_stLe (X : Nat → Except Err Env) (n : Nat) (fmt : Format) {s t
     | ok ex =>
       rw [hq] at h
       cases h
-      exact ⟨_, rfl, EnvLe.append_left E R ex henv, hout⟩
+      exact ⟨_, rfl, EnvLe.append_left E R S ex henv, hout⟩
 
-/-- Lemma C: the pass over an import-free imported file against the pass over its inlined
-declarations inside the importing file. -/
-theorem inline_sim (X X' : Nat → Except Err Env) (n : Nat) (fmt qfmt : Format) (envL0 : Env) :
-    ∀ (items : List Item), items.all (fun it => !it.isImport) = true →
-    ∀ (Lacc envR : Env) (out : Bytes) (r : ISt),
-      EnvLe E R Lacc envR → EnvLe E R (Lacc ++ envL0) envR →
-      foldE (exportStep X' qfmt) ⟨Lacc, Lacc⟩ items = .ok r →
-      ∃ envRf, r.loc = r.exp ∧
-        foldE (stepItem E R X n fmt) ⟨envR, out⟩
-          (items.filterMap (inlineItem qfmt)) = .ok ⟨envRf, out⟩ ∧
-        EnvLe E R (r.exp ++ envL0) envRf := by
+/-- **No forward reference** in the imported file `q` (whose package scope is `full`): every macro
+called in the body of a declaration resolves, in the scope built *before* that declaration, to
+what it resolves to in the whole file. -/
+def NoFwd (X' : Nat → Except Err Env) (q : Nat) (qfmt : Format) (full : Env) : ISt → List Item → Prop
+  | _, [] => True
+  | st, it :: rest =>
+    (match it with
+     | .macroDecl _ _ _ body => ∀ a ∈ body, ∀ m, a.callee = some m → lookup full m = lookup st.loc m
+     | _ => True) ∧
+    ∀ st', passStep X' q qfmt st it = .ok st' → NoFwd X' q qfmt full st' rest
+
+/-- Lemma C: the pass over the imported file `q` against the pass over its inlined items inside
+the importing file. `envL0` is the importer's environment at the import. -/
+theorem inline_sim (X X' : Nat → Except Err Env) (hXX : OkLe X' X) (n : Nat) (fmt qfmt : Format)
+    (q : Nat) (full : Env) (hS : S q = .ok full) (envL0 : Env) :
+    ∀ (items : List Item) (Lloc Lexp envR : Env) (out : Bytes) (r : ISt),
+      NoFwd X' q qfmt full ⟨Lloc, Lexp⟩ items →
+      EnvLe E R S Lloc envR →
+      (∀ m v, lookup Lloc m = none → lookup envL0 m = some v →
+        ∃ v', lookup envR m = some v' ∧ ValLe E R S v v') →
+      foldE (passStep X' q qfmt) ⟨Lloc, Lexp⟩ items = .ok r →
+      ∃ envRf,
+        foldE (stepItem E R S X n fmt) ⟨envR, out⟩ (items.filterMap (inlineItem qfmt))
+          = .ok ⟨envRf, out⟩ ∧
+        EnvLe E R S r.loc envRf ∧
+        (∀ m v, lookup r.loc m = none → lookup envL0 m = some v →
+          ∃ v', lookup envRf m = some v' ∧ ValLe E R S v v') := by
   intro items
   induction items with
   | nil =>
-    intro _ Lacc envR out r h1 h2 hf
+    intro Lloc Lexp envR out r _ h1 h2 hf
     simp only [foldE] at hf
     cases hf
-    exact ⟨envR, rfl, rfl, h2⟩
+    exact ⟨envR, rfl, h1, h2⟩
   | cons it rest ih =>
-    intro hall Lacc envR out r h1 h2 hf
-    simp only [List.all_cons, Bool.and_eq_true] at hall
-    obtain ⟨hit, hrest⟩ := hall
+    intro Lloc Lexp envR out r hnf h1 h2 hf
+    obtain ⟨hhead, htail⟩ := hnf
     cases it with
     | atom a =>
-      simp only [foldE, exportStep] at hf
-      simpa [List.filterMap, inlineItem] using ih hrest Lacc envR out r h1 h2 hf
+      simp only [foldE, passStep] at hf
+      simpa [List.filterMap, inlineItem] using
+        ih Lloc Lexp envR out r (htail _ rfl) h1 h2 hf
     | extends_ p =>
-      simp only [foldE, exportStep] at hf
-      simpa [List.filterMap, inlineItem] using ih hrest Lacc envR out r h1 h2 hf
-    | import_ q => simp [Item.isImport] at hit
-    | macroDecl m fm body =>
-      simp only [foldE, exportStep] at hf
-      have hv : ValLe E R (.mk (fm.getD qfmt) body Lacc) (.mk (fm.getD qfmt) body envR) :=
-        ValLe.of_envLe E R h1 _ body
-      have h1' := EnvLe.cons E R m hv h1
-      have h2' : EnvLe E R (((m, MacroVal.mk (fm.getD qfmt) body Lacc) :: Lacc) ++ envL0)
-          ((m, MacroVal.mk (fm.getD qfmt) body envR) :: envR) := by
-        simpa using EnvLe.cons E R m hv h2
-      obtain ⟨envRf, e1, e2, e3⟩ := ih hrest _ _ out r h1' h2' hf
-      refine ⟨envRf, e1, ?_, e3⟩
+      simp only [foldE, passStep] at hf
+      simpa [List.filterMap, inlineItem] using
+        ih Lloc Lexp envR out r (htail _ rfl) h1 h2 hf
+    | import_ q' =>
+      simp only [foldE, passStep] at hf
+      cases hx : X' q' with
+      | error e => rw [hx] at hf; cases hf
+      | ok ex =>
+        rw [hx] at hf
+        simp only at hf
+        have h1' : EnvLe E R S (ex ++ Lloc) (ex ++ envR) := EnvLe.append_left E R S ex h1
+        have h2' : ∀ m v, lookup (ex ++ Lloc) m = none → lookup envL0 m = some v →
+            ∃ v', lookup (ex ++ envR) m = some v' ∧ ValLe E R S v v' := by
+          intro m v hn hv
+          rw [lookup_append] at hn ⊢
+          cases hl : lookup ex m with
+          | some w => rw [hl] at hn; cases hn
+          | none => rw [hl] at hn; simp only at hn ⊢; exact h2 m v hn hv
+        have hnf' := htail ⟨ex ++ Lloc, Lexp⟩ (by simp [passStep, hx])
+        obtain ⟨envRf, e1, e2, e3⟩ := ih (ex ++ Lloc) Lexp (ex ++ envR) out r hnf' h1' h2' hf
+        refine ⟨envRf, ?_, e2, e3⟩
+        simp only [List.filterMap, inlineItem, foldE, stepItem, hXX q' ex hx]
+        exact e1
+    | macroDecl m fm ps body =>
+      simp only [foldE, passStep] at hf
+      have hv : ValLe E R S (.mk (fm.getD qfmt) ps body [] (some q)) (.mk (fm.getD qfmt) ps body envR none) := by
+        apply ValLe.of_scope E R S hS
+        intro a ha m' hm' v hfull
+        rw [hhead a ha m' hm'] at hfull
+        exact h1 m' v hfull
+      have h1' := EnvLe.cons E R S m hv h1
+      have h2' : ∀ k v, lookup ((m, MacroVal.mk (fm.getD qfmt) ps body [] (some q)) :: Lloc) k = none →
+          lookup envL0 k = some v →
+          ∃ v', lookup ((m, MacroVal.mk (fm.getD qfmt) ps body envR none) :: envR) k = some v' ∧
+            ValLe E R S v v' := by
+        intro k v hn hv'
+        simp only [lookup] at hn ⊢
+        by_cases hk : m = k
+        · simp [hk] at hn
+        · simp only [hk, if_false] at hn ⊢
+          exact h2 k v hn hv'
+      have hnf' := htail _ rfl
+      obtain ⟨envRf, e1, e2, e3⟩ := ih _ _ _ out r hnf' h1' h2' hf
+      refine ⟨envRf, ?_, e2, e3⟩
       simp only [List.filterMap, inlineItem, foldE, stepItem, Option.getD_some]
-      exact e2
+      exact e1
 
-/-- **import = declarations in place** at the level of item lists, for any way `R` of rendering
-and `X` of importing other files: if `X q` is what the pass over `q`'s items gives and `q` imports
-nothing, replacing `import q` by `q`'s declarations (with their result formats made explicit)
-preserves every successful run. -/
-theorem runItems_import_inline (X X' : Nat → Except Err Env) (n : Nat) (fmt : Format)
+/-- **import = the imported file's items in place**, at the level of item lists, for any way `R` of
+rendering and `X`/`S` of importing other files that is consistent with the pass `r` over the
+imported file `q`. The imported file may itself import. Hypotheses beyond consistency: no forward
+references in `q` (`hNoFwd`); and the absence of name clashes, which the engine reports as build
+errors: a macro `q` declares is not shadowed inside `q` by one of its imports (`hOwn`), and what `q`
+imports does not clash with what is visible at the import (`hHidden`). -/
+theorem runItems_import_inline (X X' : Nat → Except Err Env) (hXX : OkLe X' X) (n : Nat) (fmt : Format)
     (q : Nat) (fq : File) (r : ISt)
-    (hX : X q = .ok r.exp)
-    (hfold : foldE (exportStep X' fq.format) ⟨[], []⟩ fq.items = .ok r)
-    (hfree : fq.importFree = true) (pre post : List Item) (out : Bytes)
-    (h : runItems E R X n fmt (pre ++ .import_ q :: post) = .ok out) :
-    runItems E R X n fmt (pre ++ inlineDecls fq ++ post) = .ok out := by
+    (hX : X q = .ok r.exp) (hS : S q = .ok r.loc)
+    (hfold : foldE (passStep X' q fq.format) ⟨[], []⟩ fq.items = .ok r)
+    (hNoFwd : NoFwd X' q fq.format r.loc ⟨[], []⟩ fq.items)
+    (hOwn : ∀ m v, lookup r.exp m = some v → lookup r.loc m = some v)
+    (pre post : List Item)
+    (hHidden : ∀ s1, foldE (stepItem E R S X n fmt) ⟨[], []⟩ pre = .ok s1 →
+      ∀ m, lookup r.exp m = none → lookup r.loc m ≠ none → lookup s1.env m = none)
+    (out : Bytes)
+    (h : runItems E R S X n fmt (pre ++ .import_ q :: post) = .ok out) :
+    runItems E R S X n fmt (pre ++ inlineDecls fq ++ post) = .ok out := by
   unfold runItems at h ⊢
   rw [foldE_append] at h
   rw [List.append_assoc, foldE_append]
-  cases hpre : foldE (stepItem E R X n fmt) ⟨[], []⟩ pre with
+  cases hpre : foldE (stepItem E R S X n fmt) ⟨[], []⟩ pre with
   | error e => rw [hpre] at h; cases h
   | ok s1 =>
+    have hHid := hHidden s1 hpre
     obtain ⟨env1, out1⟩ := s1
     rw [hpre] at h
     simp only at h ⊢
     rw [foldE_append]
     simp only [foldE, stepItem, hX] at h
-    obtain ⟨envRf, _, e2, e3⟩ := inline_sim E R X X' n fmt fq.format env1 fq.items hfree [] env1 out1 r
-      (EnvLe.nil E R _) (by simpa using EnvLe.refl E R env1) hfold
+    obtain ⟨envRf, e1, e2, e3⟩ := inline_sim E R S X X' hXX n fmt fq.format q r.loc hS env1 fq.items
+      [] [] env1 out1 r hNoFwd (EnvLe.nil E R S _)
+      (fun m v _ hv => ⟨v, hv, ValLe.refl E R S v⟩) hfold
     unfold inlineDecls
-    rw [e2]
+    rw [e1]
     simp only
-    cases hpost : foldE (stepItem E R X n fmt) ⟨r.exp ++ env1, out1⟩ post with
+    have hrel : EnvLe E R S (r.exp ++ env1) envRf := by
+      intro m v hv
+      rw [lookup_append] at hv
+      cases hl : lookup r.exp m with
+      | some w =>
+        rw [hl] at hv
+        cases hv
+        exact e2 m _ (hOwn m _ hl)
+      | none =>
+        rw [hl] at hv
+        simp only at hv
+        cases hloc : lookup r.loc m with
+        | none => exact e3 m v hloc hv
+        | some w =>
+          have := hHid m hl (by rw [hloc]; simp)
+          simp only at this
+          rw [this] at hv
+          cases hv
+    cases hpost : foldE (stepItem E R S X n fmt) ⟨r.exp ++ env1, out1⟩ post with
     | error e => rw [hpost] at h; cases h
     | ok s2 =>
       rw [hpost] at h
-      obtain ⟨t2, ht2, hrel⟩ := foldE_rel (Rel := StLe E R) (f := stepItem E R X n fmt)
-        (g := stepItem E R X n fmt) post
-        (fun s t hst a _ s' hs' => stepItem_stLe E R X n fmt hst a s' hs')
-        ⟨r.exp ++ env1, out1⟩ ⟨envRf, out1⟩ ⟨e3, rfl⟩ s2 hpost
+      obtain ⟨t2, ht2, hrel2⟩ := foldE_rel (Rel := StLe E R S) (f := stepItem E R S X n fmt)
+        (g := stepItem E R S X n fmt) post
+        (fun s t hst a _ s' hs' => stepItem_stLe E R S X n fmt hst a s' hs')
+        ⟨r.exp ++ env1, out1⟩ ⟨envRf, out1⟩ ⟨hrel, rfl⟩ s2 hpost
       rw [ht2]
       simp only at h ⊢
-      rw [← hrel.2]; exact h
+      rw [← hrel2.2]; exact h
 
 end
 
-/-- **extends = layout with the child's macros substituted.** A successful run of a file that
-extends `l` is the run of the layout's items with the child's declarations written in front
-(result formats explicit), in the same file set — for a child that imports nothing. -/
+/-- When the imports of a file precede its declarations, none of its own macros is shadowed in
+its package scope by an imported one (sufficient condition for `hOwn`). -/
+theorem own_of_importsFirst (X' : Nat → Except Err Env) (q : Nat) (qfmt : Format) :
+    ∀ (items : List Item) (seen : Bool) (st r : ISt), importsFirst seen items = true →
+      (seen = false → st.exp = []) →
+      (∀ m v, lookup st.exp m = some v → lookup st.loc m = some v) →
+      foldE (passStep X' q qfmt) st items = .ok r →
+      ∀ m v, lookup r.exp m = some v → lookup r.loc m = some v := by
+  intro items
+  induction items with
+  | nil =>
+    intro seen st r _ _ h hf
+    simp only [foldE] at hf
+    cases hf
+    exact h
+  | cons it rest ih =>
+    intro seen st r hif hs h hf
+    cases it with
+    | atom a =>
+      simp only [foldE, passStep] at hf
+      exact ih seen st r (by simpa [importsFirst] using hif) hs h hf
+    | extends_ p =>
+      simp only [foldE, passStep] at hf
+      exact ih seen st r (by simpa [importsFirst] using hif) hs h hf
+    | import_ q' =>
+      simp only [importsFirst, Bool.and_eq_true, Bool.not_eq_true'] at hif
+      obtain ⟨hseen, hrest⟩ := hif
+      simp only [foldE, passStep] at hf
+      cases hx : X' q' with
+      | error e => rw [hx] at hf; cases hf
+      | ok ex =>
+        rw [hx] at hf
+        simp only at hf
+        refine ih seen ⟨ex ++ st.loc, st.exp⟩ r hrest hs ?_ hf
+        intro m v hv
+        rw [hs hseen] at hv
+        simp [lookup] at hv
+    | macroDecl m fm ps body =>
+      simp only [foldE, passStep] at hf
+      refine ih true _ r (by simpa [importsFirst] using hif) (by simp) ?_ hf
+      intro k v hv
+      simp only [lookup] at hv ⊢
+      by_cases hk : m = k
+      · simp only [hk, if_true] at hv ⊢; exact hv
+      · simp only [hk, if_false] at hv ⊢; exact h k v hv
+
+/-- **extends = layout with the child's imports and macros in front.** A successful run of a file
+that extends `l` is the run of `inlineDecls child ++ layout's items` in the same file set; the
+child may import other files. `st` is the pass over the child. -/
 theorem runFile_extends_substituted (E : Engine) (files : List File) (n p l : Nat)
-    (child lay : File) (rest : List Item) (r : Format × Bytes)
+    (child lay : File) (rest : List Item) (r : Format × Bytes) (st : ISt)
     (hc : files[p]? = some child) (hi : child.items = .extends_ l :: rest)
-    (hl : files[l]? = some lay) (hfree : child.importFree = true)
-    (h : runFile E files (n+1) true p = .ok r) :
+    (hl : files[l]? = some lay)
+    (hpass : passOf files (n+1) p = .ok st)
+    (hNoFwd : NoFwd (exportsOf files n) p child.format st.loc ⟨[], []⟩ child.items)
+    (hOwn : ∀ m v, lookup st.exp m = some v → lookup st.loc m = some v)
+    (h : runFile E files (n+2) true p = .ok r) :
     r.1 = lay.format ∧
-    runItems E (fun q => runFile E files n false q) (exportsOf files n) n lay.format
-      (inlineDecls child ++ lay.items) = .ok r.2 := by
+    runItems E (fun q => runFile E files (n+1) false q) (scopeOf files (n+1)) (exportsOf files (n+1)) (n+1)
+      lay.format (inlineDecls child ++ lay.items) = .ok r.2 := by
   rw [runFile] at h
   rw [hc] at h
   simp only [hi, hl, Bool.not_true, Bool.false_eq_true, if_false] at h
   split at h
   · cases h
-  · cases hrun : runItems E (fun q => runFile E files n false q) (exportsOf files n) n lay.format
-        (.import_ p :: lay.items) with
+  · cases hrun : runItems E (fun q => runFile E files (n+1) false q) (scopeOf files (n+1))
+        (exportsOf files (n+1)) (n+1) lay.format (.import_ p :: lay.items) with
     | error e => rw [hrun] at h; cases h
     | ok out =>
       rw [hrun] at h
       cases h
       refine ⟨rfl, ?_⟩
-      -- the import of the child succeeded, so the pass over the child's items did
-      have hex : ∃ ex, exportsOf files n p = .ok ex := by
-        unfold runItems at hrun
-        simp only [foldE, stepItem] at hrun
-        cases hx : exportsOf files n p with
-        | error e => rw [hx] at hrun; cases hrun
-        | ok ex => exact ⟨ex, rfl⟩
-      obtain ⟨ex, hex⟩ := hex
-      cases n with
-      | zero => simp [exportsOf] at hex
-      | succ k =>
-        have hex' := hex
-        rw [exportsOf] at hex'
-        rw [hc] at hex'
-        simp only at hex'
-        cases hf : foldE (exportStep (exportsOf files k) child.format) ⟨[], []⟩ child.items with
-        | error e => rw [hf] at hex'; cases hex'
-        | ok st =>
-          rw [hf] at hex'
-          cases hex'
-          have := runItems_import_inline E (fun q => runFile E files (k+1) false q)
-            (exportsOf files (k+1)) (exportsOf files k) (k+1) lay.format p child st hex hf hfree
-            [] lay.items out (by simpa using hrun)
-          simpa using this
+      have hfold : foldE (passStep (exportsOf files n) p child.format) ⟨[], []⟩ child.items = .ok st := by
+        have := hpass
+        rw [passOf, hc] at this
+        exact this
+      have := runItems_import_inline E (fun q => runFile E files (n+1) false q) (scopeOf files (n+1))
+        (exportsOf files (n+1)) (exportsOf files n) (exportsOf_mono files n) (n+1) lay.format p child st
+        (by simp [exportsOf, hpass, expOf]) (by simp [scopeOf, hpass, locOf]) hfold hNoFwd hOwn
+        [] lay.items
+        (by intro s1 hs1 m _ _; simp only [foldE] at hs1; cases hs1; rfl)
+        out (by simpa using hrun)
+      simpa using this
 
 end ScriggoV.Compose
